@@ -62,6 +62,7 @@ type simAdapter struct {
 	inc     int
 	// counters
 	FiredEnq, FiredDeq, FiredAck, Dups, Delays int
+	lens     []lenObs
 	enqIDs   []string // job ids in the order the adapter stored them (parsed from the bytes)
 	deliveredBad []bool // per delivered corrupted entry: might it still decode?
 	notifies []int // per subscriber: delivered notifications
@@ -259,6 +260,9 @@ func (a *simAdapter) Len() int {
 	a.hb()
 	defer a.cutPoint()
 	defer a.hb()
+	if a.root.cfg.Prop == "C15" {
+		a.lens = append(a.lens, lenObs{simrt.Step(), len(a.pending), simrt.CurID()})
+	}
 	return len(a.pending)
 }
 
